@@ -173,7 +173,7 @@ def getHighlight (line : List Char) (hs he : Nat) : Res :=
   if hs = he then
     .ok (List.replicate (ws - 1) ' ' ++ Gen.pointer.toList)
   else if he < hs then
-    .panic "sub:highlight"   -- `highlight_end - highlight_start` underflows (overflow checks on)
+    .ok (List.replicate ws ' ')   -- `highlight_end.saturating_sub(highlight_start)` = 0: nothing is highlighted (repair of D-14a)
   else
     let tabs := (((line.drop hs).take (he - hs)).filter (· = '\t')).length
     .ok (List.replicate ws ' ' ++ List.replicate ((he - hs) + tabs * (Gen.expandedTab.length - 1)) '-')
